@@ -372,7 +372,10 @@ impl<RW: QueueRW<T>, T> MultiQueue<RW, T> {
 
     pub fn try_recv(&self, reader: &Reader) -> Result<T, (*const AtomicUsize, TryRecvError)> {
         let mut ctail_attempt = reader.load_attempt(Relaxed);
-        let is_single = reader.is_single();
+        // Must be the decision load_attempt just made, not a second look at the consumer
+        // count: if a sibling drops in between, a stale multi-consumer attempt would
+        // otherwise skip the pin and clone a slot the writer is free to overwrite
+        let is_single = ctail_attempt.is_single();
         unsafe {
             loop {
                 let (ctail, wrap_valid_tag) = ctail_attempt.get();
